@@ -1,5 +1,8 @@
 import Jap.Core.Validate
 import Jap.Lemmas.ValidateStyles
+import Jap.Lemmas.Styles
+import Jap.Lemmas.StylesParse
+import Jap.Gen.SetDefaultsLoop
 /-!
 # C07 — equivalent ways of declaring a nested group behave identically
 
@@ -19,7 +22,10 @@ It is FALSE for the code when `s = dotted`: that style creates no action for the
 (`C07_dotted_lacks_whole`), so whole-group JSON on the command line is rejected there only
 (`C07_whole_group_counterexample`; open finding C07-dotted-whole-group, DESIGN section 7 row 9).
 Proved: the full statement for the three other styles (`C07_styles_nondotted`), and for all four styles on inputs that do
-not assign the group as a whole (`C07_styles_partial`), for all keys, loaders, well-formed field lists and input sequences.
+not assign the group as a whole (`C07_styles_partial`), for all keys, loaders, field lists and input sequences —
+first for flat field lists (`*_flat`, with the signature rules for Optional / underscore parameters), then for RECURSIVE
+field lists with DECLARED group defaults (Core/Styles.lean), where `C07_same_table` includes the defaults and
+`C07_set_defaults_all_entries` is the statement about `set_defaults` that seeded defect C07-2B broke.
 -/
 namespace Jap.Props.C07
 open Jap.Validate
@@ -27,7 +33,7 @@ open Jap.Validate
 /-- **C07_same_table.**  On a well-formed field list the four constructors produce the same dests, option strings, types,
     defaults (`entries`) and the same required set; the dataclass, class-arguments and inner-parser styles also the same
     whole-group option `--key`; the dotted style none. -/
-theorem C07_same_table (key : String) (fields : List Field) (h : wfFields fields = true) :
+theorem C07_same_table_flat (key : String) (fields : List Field) (h : wfFields fields = true) :
     declDataclass key fields = declClassArgs key fields
     ∧ declClassArgs key fields = (declDotted key fields).withWhole (some key)
     ∧ declInnerParser key fields = (declDotted key fields).withWhole (some key)
@@ -35,9 +41,9 @@ theorem C07_same_table (key : String) (fields : List Field) (h : wfFields fields
   ⟨rfl, declClass_eq key h, declInner_eq key fields, rfl⟩
 
 /-- the tables of the four styles differ at most in the whole-group option -/
-theorem C07_table_of_style (s : Style) (key : String) (fields : List Field) (h : wfFields fields = true) :
+theorem C07_table_of_style_flat (s : Style) (key : String) (fields : List Field) (h : wfFields fields = true) :
     decl s key fields = (declDotted key fields).withWhole (if s = .dotted then none else some key) := by
-  obtain ⟨h1, h2, h3, _⟩ := C07_same_table key fields h
+  obtain ⟨h1, h2, h3, _⟩ := C07_same_table_flat key fields h
   cases s with
   | dotted => rfl
   | dataclass => exact h1.trans h2
@@ -46,18 +52,18 @@ theorem C07_table_of_style (s : Style) (key : String) (fields : List Field) (h :
 
 /-- **C07_styles (the three styles with a group action), full strength**: same values, same accept/reject, same order of the
     dumped configuration, for every input sequence — including whole-group JSON options and variables. -/
-theorem C07_styles_nondotted (ld : String → Val) (s s' : Style) (key : String) (fields : List Field) (items : List Item)
+theorem C07_styles_nondotted_flat (ld : String → Val) (s s' : Style) (key : String) (fields : List Field) (items : List Item)
     (h : wfFields fields = true) (hs : s ≠ .dotted) (hs' : s' ≠ .dotted) :
     parse7 ld (decl s key fields) key items = parse7 ld (decl s' key fields) key items := by
-  rw [C07_table_of_style s key fields h, C07_table_of_style s' key fields h]
+  rw [C07_table_of_style_flat s key fields h, C07_table_of_style_flat s' key fields h]
   simp [hs, hs']
 
 /-- **C07_styles_partial**: all four styles, for every input sequence that does not assign the group as a whole
     (`Item.usesWhole`: the `--key` option, the variable of the key, a string for the key in a configuration). -/
-theorem C07_styles_partial (ld : String → Val) (s s' : Style) (key : String) (fields : List Field) (items : List Item)
+theorem C07_styles_partial_flat (ld : String → Val) (s s' : Style) (key : String) (fields : List Field) (items : List Item)
     (h : wfFields fields = true) (hu : ∀ it ∈ items, Item.usesWhole key it = false) :
     parse7 ld (decl s key fields) key items = parse7 ld (decl s' key fields) key items := by
-  rw [C07_table_of_style s key fields h, C07_table_of_style s' key fields h, parse7_whole hu, parse7_whole hu]
+  rw [C07_table_of_style_flat s key fields h, C07_table_of_style_flat s' key fields h, parse7_whole hu, parse7_whole hu]
 
 /-- witness (DESIGN section 7 row 9): the dotted style has no whole-group option, whatever the fields -/
 theorem C07_dotted_lacks_whole (key : String) (fields : List Field) : (declDotted key fields).whole = none := rfl
@@ -102,5 +108,181 @@ example : (decl .inner "grp" flds).required = ["grp.alpha"]
 /-- ... and what goes wrong outside `wfFields`: a required Optional field is not required in the signature styles -/
 example : (declDotted "g" [⟨"o", .optInt, none⟩]).required = ["g.o"] ∧ (declClassArgs "g" [⟨"o", .optInt, none⟩]).required = [] :=
   ⟨rfl, rfl⟩
+
+/-! # recursive field lists with declared group defaults (Core/Styles.lean)
+
+A field is a typed leaf or a sub-group, to any depth; defaults are declared for groups (`default=` of `add_class_arguments` /
+of the dataclass-typed argument for the outermost group `D`; the default instance of a dataclass-typed parameter for a
+sub-group).  The theorems below have NO side conditions on the field list or on the defaults mappings. -/
+
+/-- the group keys: the outermost group and every sub-group, at every depth -/
+def groupPaths (key : String) (fields : List FieldR) : List (List String) := [key] :: groupsL [key] fields
+
+/-- **C07_set_defaults_all_entries.**  `set_defaults` performs EVERY leaf assignment of the defaults mapping, in order, whatever
+    the position of an entry relative to sub-group entries: (1) it equals the fold of the flattened assignment list over the table;
+    (2) every argument ends with the last value assigned to its destination (else keeps its default), `required_args` and the
+    group options are untouched; (3) in particular an entry placed AFTER a sub-group entry takes effect (what seed C07-2B broke). -/
+theorem C07_set_defaults_all_entries (pre : List String) (D : DMap) (t : TableR) :
+    setDefs pre D t = applyAssigns t (flatD pre D)
+    ∧ (setDefs pre D t).entries = t.entries.map (fun e => { e with default := lastA e.path (flatD pre D) e.default })
+    ∧ (setDefs pre D t).required = t.required ∧ (setDefs pre D t).wholes = t.wholes
+    ∧ (∀ (A : DMap) (n : String) (m : DMap) (k : String) (v : Val) (B : DMap) (e : EntryR),
+        D = A ++ (n, .map m) :: (k, .val v) :: B → e ∈ t.entries → e.path = pre ++ [k] →
+        (∀ a ∈ flatD pre B, a.1 ≠ pre ++ [k]) → { e with default := v } ∈ (setDefs pre D t).entries) := by
+  obtain ⟨h1, h2, h3⟩ := setDefs_entries pre D t
+  refine ⟨setDefs_eq_fold pre D t, h1, h2, h3, ?_⟩
+  intro A n m k v B e hD he hp hB
+  rw [h1, hD]
+  simp only [updE, List.mem_map]
+  refine ⟨e, he, ?_⟩
+  have hf : flatD pre (A ++ (n, DVal.map m) :: (k, DVal.val v) :: B)
+      = (flatD pre A ++ flatD (pre ++ [n]) m) ++ ((pre ++ [k], v) :: flatD pre B) := by
+    rw [flatD_append]; simp [flatD, flatDV]
+  rw [hf, lastA_append, hp]
+  simp only [lastA, if_true]
+  rw [lastA_nohit _ hB]
+
+/-- the extractor tie for the theorem above: in `ActionsContainer.set_defaults` the `_ActionConfigLoad` (whole-group) branch
+    expands the mapping, calls `set_defaults` on it and ends with `continue`; it holds no `return` / `break` / `raise`, nor does
+    the loop body -/
+theorem C07_set_defaults_continue :
+    Jap.Gen.SetDefaultsLoop.branchLeavesLoop = false ∧ Jap.Gen.SetDefaultsLoop.branchEndsWithContinue = true
+    ∧ Jap.Gen.SetDefaultsLoop.branchRecurses = true ∧ Jap.Gen.SetDefaultsLoop.loopBodyLeaves = false := by
+  decide
+
+/-- **C07_same_table (recursive grammar, declared defaults).**  For every key, every defaults mapping and every recursive field
+    list the four constructors produce the same destinations, option strings, types, DEFAULTS and the same required set: the
+    default of every leaf is the declared group default where one was given (the outermost declaration wins, `effL`), else
+    the class default — in every style; the dataclass, class-arguments and inner-parser styles also the same whole-group options
+    (one per group, at every level); the dotted style none. -/
+theorem C07_same_table (key : String) (D : DMap) (fields : List FieldR) :
+    declDataclassR key D fields = declClassArgsR key D fields
+    ∧ declClassArgsR key D fields = (declDottedR key D fields).withWholes (groupPaths key fields)
+    ∧ declInnerR key D fields = (declDottedR key D fields).withWholes (groupPaths key fields)
+    ∧ (declDottedR key D fields).wholes = [] := by
+  refine ⟨rfl, ?_, ?_, dottedL_wholes _ _⟩
+  · obtain ⟨h1, h2, h3⟩ := setDefs_entries [key] D ((⟨[], [], [[key]]⟩ : TableR).append (sigL [key] fields))
+    obtain ⟨g1, g2⟩ := sigL_dotted [key] D fields
+    have hw := sigL_wholes [key] fields
+    unfold declClassArgsR declDottedR TableR.withWholes groupPaths
+    simp only [sigF, List.nil_append]
+    cases hT : setDefs [key] D ((⟨[], [], [[key]]⟩ : TableR).append (sigL [key] fields)) with
+    | mk es rq ws =>
+      rw [hT] at h1 h2 h3
+      simp only [TableR.append, List.nil_append, List.singleton_append] at h1 h2 h3
+      simp only [TableR.mk.injEq]
+      exact ⟨by rw [h1, g1], by rw [h2, g2], by rw [h3, hw]⟩
+  · obtain ⟨g1, g2⟩ := dottedL_inner [key] (effL D fields)
+    have hw := innerL_wholes [key] (effL D fields)
+    rw [groupsL_eff] at hw
+    unfold declInnerR declDottedR TableR.withWholes TableR.moved groupPaths
+    simp only [TableR.mk.injEq]
+    refine ⟨?_, ?_, ?_⟩
+    · rw [g1]; simp [prefE]
+    · rw [g2]; simp
+    · rw [← hw]; simp
+
+theorem C07_table_of_style (s : Style) (key : String) (D : DMap) (fields : List FieldR) :
+    declR s key D fields = (declDottedR key D fields).withWholes (if s = .dotted then [] else groupPaths key fields) := by
+  obtain ⟨h1, h2, h3, h4⟩ := C07_same_table key D fields
+  cases s with
+  | dotted =>
+    simp only [declR, if_true, TableR.withWholes]
+    cases hT : declDottedR key D fields with
+    | mk es rq ws => rw [hT] at h4; simp only at h4; rw [h4]
+  | dataclass => exact h1.trans h2
+  | classArgs => exact h2
+  | inner => exact h3
+
+/-- the parse in one style: defaults, the sources in order, `validate` against the spec tree of the declaration -/
+def parseStyle (ld : String → Val) (s : Style) (key : String) (D : DMap) (fields : List FieldR) (items : List ItemR) : Except Err KV :=
+  parseR ld (declR s key D fields) (specR (s != .dotted) key fields) items
+
+/-- **C07_styles (dataclass / class arguments / inner parser), full strength, recursive grammar with declared defaults**:
+    same values, same accept/reject, same order of the dumped configuration, for every input sequence. -/
+theorem C07_styles_nondotted (ld : String → Val) (s s' : Style) (key : String) (D : DMap) (fields : List FieldR) (items : List ItemR)
+    (hs : s ≠ .dotted) (hs' : s' ≠ .dotted) :
+    parseStyle ld s key D fields items = parseStyle ld s' key D fields items := by
+  unfold parseStyle
+  rw [C07_table_of_style s, C07_table_of_style s']
+  have e1 : (s != .dotted) = true := by cases s <;> simp at hs ⊢
+  have e2 : (s' != .dotted) = true := by cases s' <;> simp at hs' ⊢
+  simp [hs, hs', e1, e2]
+
+/-- **C07_styles_partial (all four styles), recursive grammar with declared defaults.**  For inputs that do not assign a group as a
+    whole (`ItemR.usesWhole`: no `--group` option / variable, no string for a group key in a configuration tree) the four styles
+    apply the sources identically; the parse results are equal provided no group key of the resulting configuration holds a
+    string (`hres`, a decidable condition on the outcome — it holds automatically for flat lists: `C07_styles_partial_flat`). -/
+theorem C07_styles_partial (ld : String → Val) (s s' : Style) (key : String) (D : DMap) (fields : List FieldR) (items : List ItemR)
+    (hu : ∀ it ∈ items, ItemR.usesWhole (groupPaths key fields) it = false)
+    (hres : ∀ cfg, applyItemsR ld (declDottedR key D fields) items (declDottedR key D fields).defaults = .ok cfg →
+      noStrKVs (specR true key fields) cfg = true) :
+    parseStyle ld s key D fields items = parseStyle ld s' key D fields items := by
+  have key_lemma : ∀ st : Style, parseStyle ld st key D fields items
+      = parseR ld (declDottedR key D fields) (specR false key fields) items := by
+    intro st
+    unfold parseStyle parseR
+    rw [C07_table_of_style st]
+    have hsub : ∀ q ∈ (if st = Style.dotted then [] else groupPaths key fields), q ∈ groupPaths key fields := by
+      intro q hq; by_cases h : st = .dotted <;> simp [h] at hq ⊢; exact hq
+    have hd : ∀ q ∈ (declDottedR key D fields).wholes, q ∈ groupPaths key fields := by
+      intro q hq
+      have : (declDottedR key D fields).wholes = [] := dottedL_wholes _ _
+      rw [this] at hq; cases hq
+    have hdef : ((declDottedR key D fields).withWholes (if st = Style.dotted then [] else groupPaths key fields)).defaults
+        = (declDottedR key D fields).defaults := rfl
+    rw [hdef, applyItemsR_wholes hd hsub items _ hu]
+    cases hA : applyItemsR ld (declDottedR key D fields) items (declDottedR key D fields).defaults with
+    | error e => rfl
+    | ok cfg =>
+      simp only []
+      have hno := hres cfg hA
+      cases st with
+      | dotted => rfl
+      | dataclass =>
+        have : validate ld (specR false key fields) cfg = validate ld (specR true key fields) cfg := by
+          rw [← specR_erase true]; exact validate_erase _ _ hno
+        have hb : (Style.dataclass != Style.dotted) = true := rfl
+        rw [hb, this]
+      | classArgs =>
+        have : validate ld (specR false key fields) cfg = validate ld (specR true key fields) cfg := by
+          rw [← specR_erase true]; exact validate_erase _ _ hno
+        have hb : (Style.classArgs != Style.dotted) = true := rfl
+        rw [hb, this]
+      | inner =>
+        have : validate ld (specR false key fields) cfg = validate ld (specR true key fields) cfg := by
+          rw [← specR_erase true]; exact validate_erase _ _ hno
+        have hb : (Style.inner != Style.dotted) = true := rfl
+        rw [hb, this]
+  rw [key_lemma s, key_lemma s']
+
+/-! ### witnesses and non-vacuity (recursive grammar) -/
+
+private def fldsR : List FieldR :=
+  [.leaf "a" .int (some (.int 0)) none,
+   .sub "n" [("x", .val (.int 4))] [.leaf "x" .int (some (.int 0)) none, .leaf "y" .str (some (.str "s")) none,
+                                     .sub "deep" [] [.leaf "k" .listInt (some (.list [])) none]],
+   .leaf "b" .int (some (.int 0)) none, .leaf "c" .listInt (some (.list [])) none]
+private def dR : DMap := [("a", .val (.int 1)), ("n", .map [("x", .val (.int 5)), ("deep", .map [("k", .val (.list [.int 2]))])]),
+                           ("b", .val (.int 7)), ("c", .val (.list [.int 3]))]
+
+/-- computed: the defaults declared AFTER the sub-group entry (`b`, `c`) take effect, the outer declaration (`n.x = 5`) wins over
+    the sub-group's own (`4`), in the signature styles exactly as stated directly in the dotted style -/
+example : ((declClassArgsR "g" dR fldsR).entries.map fun e => (e.path, e.default))
+    = [(["g", "a"], .int 1), (["g", "n", "x"], .int 5), (["g", "n", "y"], .str "s"), (["g", "n", "deep", "k"], .list [.int 2]),
+       (["g", "b"], .int 7), (["g", "c"], .list [.int 3])] := rfl
+example : (declClassArgsR "g" dR fldsR).wholes = [["g"], ["g", "n"], ["g", "n", "deep"]] ∧ (declInnerR "g" dR fldsR).wholes = [["g"], ["g", "n"], ["g", "n", "deep"]] := ⟨rfl, rfl⟩
+/-- the FULL statement fails for the dotted style on recursive lists too: a sub-group option -/
+theorem C07_sub_group_option_counterexample :
+    parseStyle ld0 .inner "g" dR fldsR [.wholeOpt ["g", "n"] (.dict [("y", .str "z")])]
+      = .ok [("g", .dict [("a", .int 1), ("n", .dict [("x", .int 5), ("y", .str "z"), ("deep", .dict [("k", .list [.int 2])])]),
+                           ("b", .int 7), ("c", .list [.int 3])])]
+    ∧ parseStyle ld0 .dotted "g" dR fldsR [.wholeOpt ["g", "n"] (.dict [("y", .str "z")])] = .error (.unrecognized "g.n") := ⟨rfl, rfl⟩
+/-- non-vacuity of `C07_styles_partial`: the hypotheses hold for a mixed input (options, an append, a nested tree) -/
+example : (∀ it ∈ [ItemR.opt ["g", "n", "x"] false (.str "5"), .opt ["g", "c"] true (.str "5"), .tree [("g", .dict [("n", .dict [("y", .str "q")])])]],
+      ItemR.usesWhole (groupPaths "g" fldsR) it = false)
+    ∧ parseStyle ld0 .dotted "g" dR fldsR [.opt ["g", "n", "x"] false (.str "5"), .opt ["g", "c"] true (.str "5"), .tree [("g", .dict [("n", .dict [("y", .str "q")])])]]
+      = .ok [("g", .dict [("a", .int 1), ("n", .dict [("x", .int 5), ("y", .str "q"), ("deep", .dict [("k", .list [.int 2])])]),
+                           ("b", .int 7), ("c", .list [.int 3, .int 5])])] := ⟨by decide, rfl⟩
 
 end Jap.Props.C07
